@@ -119,6 +119,61 @@ fn gen_rnd(r: &mut Rng) -> String {
     code
 }
 
+/// dst += a * b, preserving a and b (b may equal a: then a copy in t2 is used).
+/// Uses temporaries t0, t1, t2 which must be zero before and are zero afterwards.
+fn mul_acc(out: &mut String, cur: &mut i32, dst: i32, a: i32, b: i32, t0: i32, t1: i32, t2: i32) {
+    let bb = if a == b {
+        // t2 = a (preserving a via t0)
+        go(out, cur, a);
+        out.push_str("[-");
+        go(out, cur, t2);
+        out.push('+');
+        go(out, cur, t0);
+        out.push('+');
+        go(out, cur, a);
+        out.push(']');
+        go(out, cur, t0);
+        out.push_str("[-");
+        go(out, cur, a);
+        out.push('+');
+        go(out, cur, t0);
+        out.push(']');
+        t2
+    } else {
+        b
+    };
+    go(out, cur, a);
+    out.push_str("[-");
+    go(out, cur, t0);
+    out.push('+');
+    go(out, cur, bb);
+    out.push_str("[-");
+    go(out, cur, dst);
+    out.push('+');
+    go(out, cur, t1);
+    out.push('+');
+    go(out, cur, bb);
+    out.push(']');
+    go(out, cur, t1);
+    out.push_str("[-");
+    go(out, cur, bb);
+    out.push('+');
+    go(out, cur, t1);
+    out.push(']');
+    go(out, cur, a);
+    out.push(']');
+    go(out, cur, t0);
+    out.push_str("[-");
+    go(out, cur, a);
+    out.push('+');
+    go(out, cur, t0);
+    out.push(']');
+    if a == b {
+        go(out, cur, t2);
+        out.push_str("[-]");
+    }
+}
+
 // ---------------------------------------------------------------- S
 const NV: i32 = 5;
 fn gen_struct(r: &mut Rng, depth: u32, out: &mut String, cur: &mut i32, budget: &mut i32) {
@@ -134,7 +189,7 @@ fn gen_struct(r: &mut Rng, depth: u32, out: &mut String, cur: &mut i32, budget: 
             b = (a + 1) % NV;
         }
         let t = NV + r.below(2) as i32;
-        match r.below(15) {
+        match r.below(17) {
             0 => {
                 go(out, cur, a);
                 let c = if r.chance(3) { '-' } else { '+' };
@@ -258,6 +313,17 @@ fn gen_struct(r: &mut Rng, depth: u32, out: &mut String, cur: &mut i32, budget: 
                 go(out, cur, cnt);
                 out.push(']');
             }
+            14 | 15 => {
+                // dst += b * c (c == b: a square), possibly followed by clearing an operand
+                let c = if r.chance(3) { b } else { r.below(NV as u64) as i32 };
+                if a != b && a != c {
+                    mul_acc(out, cur, a, b, c, NV, NV + 1, NV + 3);
+                    if r.chance(3) {
+                        go(out, cur, b);
+                        out.push_str("[-]");
+                    }
+                }
+            }
             13 if depth < 2 && r.chance(3) => {
                 // unbalanced loop / scan
                 go(out, cur, a);
@@ -285,7 +351,7 @@ fn gen_s(r: &mut Rng) -> String {
         }
     }
     gen_struct(r, 0, &mut code, &mut cur, &mut budget);
-    for i in 0..NV + 3 {
+    for i in 0..NV + 4 {
         go(&mut code, &mut cur, i);
         code.push('.');
     }
@@ -324,7 +390,7 @@ fn gen_net(r: &mut Rng) -> String {
         }
     }
     let looped = r.chance(2);
-    let cnt = n + 3;
+    let cnt = n + 6;
     if looped {
         go(&mut out, &mut cur, cnt);
         let step = *r.pick(&[1u64, 1, 1, 3, 5, 7]);
@@ -361,6 +427,28 @@ fn gen_net(r: &mut Rng) -> String {
                     out.push('+');
                     go(&mut out, &mut cur, t);
                     out.push(']');
+                }
+                4 if r.chance(2) => {
+                    // product or square into i, then fan the operand out as multiples
+                    let k = if r.chance(2) { j } else { (j + 1) % n };
+                    if k != i {
+                        mul_acc(&mut out, &mut cur, i, j, k, t, t + 2, t + 4);
+                        if r.chance(2) {
+                            // j -> several cells with different multiples, j cleared
+                            go(&mut out, &mut cur, j);
+                            out.push_str("[-");
+                            let fan = 2 + r.below(6) as i32;
+                            for f in 0..fan {
+                                let d = (j + 1 + f) % n;
+                                if d != j {
+                                    go(&mut out, &mut cur, d);
+                                    rep(&mut out, '+', 1 + f as u64);
+                                }
+                            }
+                            go(&mut out, &mut cur, j);
+                            out.push(']');
+                        }
+                    }
                 }
                 4 => {
                     if r.chance(3) {
@@ -544,7 +632,59 @@ fn gen_roam(r: &mut Rng) -> String {
 }
 
 // ---------------------------------------------------------------- D
+/// Loops that diverge for some start values only: the condition cell steps by an
+/// even amount (so odd values never reach zero), by zero net, or is restored by
+/// the body; the body is made of pieces the optimiser likes to hoist or fold.
+fn gen_div_cond(r: &mut Rng) -> String {
+    let mut out = String::new();
+    let pieces: [&str; 12] = [">[-]+<", ">[-]<", ">+<", ">-<", ">++<", ".", ">.<", ">[-]++<", "<+>", ">>+<<",
+        ">[->+<]<", ""];
+    if r.chance(3) {
+        rep(&mut out, '+', 1 + r.below(4));
+        out.push('.');
+        out.push_str("[-]");
+    }
+    if r.chance(4) {
+        rep(&mut out, '+', 1 + r.below(7));
+    } else {
+        out.push(',');
+        if r.chance(3) {
+            rep(&mut out, '+', 1 + r.below(3));
+        }
+    }
+    let nested = r.chance(4);
+    if nested {
+        out.push_str("[>+<");
+    }
+    out.push('[');
+    let step = *r.pick(&[2u64, 2, 2, 4, 6, 0, 1, 3]);
+    let first = r.chance(2);
+    let c = if r.chance(5) { '+' } else { '-' };
+    if first {
+        rep(&mut out, c, step);
+    }
+    for _ in 0..r.below(3) {
+        let pc: &str = *r.pick::<&str>(&pieces[..]);
+        out.push_str(pc);
+    }
+    if r.chance(6) {
+        out.push_str("+-");
+    }
+    if !first {
+        rep(&mut out, c, step);
+    }
+    out.push(']');
+    if nested {
+        out.push_str("-]");
+    }
+    out.push_str(*r.pick(&[">.", ">.<.", ".", ">.>.", "<.>>."]));
+    out
+}
+
 fn gen_div(r: &mut Rng) -> String {
+    if r.chance(2) {
+        return gen_div_cond(r);
+    }
     let mut out = String::new();
     // optional terminating prologue with output
     if r.chance(2) {
